@@ -21,6 +21,9 @@ Streams (all end in the same judgement):
                            of another type Python's == cannot tell from it, through every entry point
   directed:value-lattice   ENUMERATED: a value lattice over scalar / AllOf / AnyOf / OneOf / NotField fields, alone and as
                            items of typed containers
+  directed:nonfinite       ENUMERATED: NaN / +inf / -inf handed to number fields with Decimal (and float) bounds, alone and as
+                           items / values of typed containers (a rejection must be a TypeError / ValueError)
+
   directed:multi-instance  histories over SEVERAL instances of one class: an event on a sibling instance (deepcopy, pickle, clone,
                            trusted construction / assignment / deserialization, rejected assignments / construction, ==/str/
                            hash), then the value lattice on another instance (Field objects are shared between instances);
@@ -1786,6 +1789,71 @@ def directed_lattice(ctx, tables, rep):
     return hs
 
 
+NONFINITE = [("other", "float", "nan"), ("other", "float", "inf"), ("other", "float", "-inf")]
+
+
+def nonfinite_class():
+    D25, D05 = ("dec", 25, -1), ("dec", 5, -1)
+    FD = {"t": "num", "k": "Float", "s": "Any", "max": D25}
+    ND = {"t": "num", "k": "Number", "s": "Any", "min": D05, "max": ("dec", 9, 0)}
+    FF = {"t": "num", "k": "Float", "s": "Any", "max": ("flt", 5, -1)}
+    PD = {"t": "num", "k": "Float", "s": "Positive", "max": D25}
+    nosz = [None, None]
+    fields = [
+        ("fd", FD, ("flt", 1, 0)), ("nd", ND, ("int", 1)), ("ff", FF, ("flt", 1, 0)), ("pd", PD, ("flt", 1, 0)),
+        ("lfd", {"t": "seqeach", "k": "list", "item": FD, "sz": nosz, "uniq": False}, ("list", [("flt", 1, 0)])),
+        ("qnd", {"t": "seqeach", "k": "deque", "item": ND, "sz": nosz, "uniq": False}, ("deque", [("int", 1)])),
+        ("mnd", {"t": "mapkv", "kf": {"t": "str"}, "vf": ND, "sz": nosz}, ("dict", [(("str", "k"), ("int", 1))])),
+    ]
+    cast = {"name": "WNF", "fields": [{"name": n, "field": f} for n, f, _ in fields], "required": [], "additional": False}
+    return cast, [(n, v) for n, _, v in fields]
+
+
+def directed_nonfinite(ctx, tables, rep):
+    """Small-scope enumeration: NaN and the two infinities handed to number fields whose bounds are Decimals (the
+    comparison Decimal vs NaN is an arithmetic error of the decimal module, not an ordering), with float bounds for
+    comparison -- by attribute assignment and as items / values of typed Array / Deque / Map fields.  Whatever the
+    verdict, a rejection must be a TypeError / ValueError and leave the instance unchanged."""
+    cast, start = nonfinite_class()
+    if "WNF" not in ctx.classes and not add_class(ctx, cast):
+        return []
+    cast = ctx.ast("WNF")
+    hs = []
+
+    def one(op):
+        h = run_history(None, cast, ctx, tables, 1, "reread", ops=[op], kwargs=start)
+        if h is not None and h.steps:
+            rep.count("directed:nonfinite", 0, (op["name"], op["op"], op.get("method"), op_value_tag(op), h.steps[0]["out"][0]))
+            hs.append(h)
+
+    for name, v in start:
+        kind = kind_of(field_cast(cast["fields"], name))
+        for y in NONFINITE:
+            one({"op": "set", "name": name, "value": y})
+            if kind in ("list", "deque"):
+                one({"op": "set", "name": name, "value": (kind, list(v[1]) + [y])})
+                one({"op": "call", "name": name, "kind": kind, "method": "append", "args": [y]})
+                one({"op": "call", "name": name, "kind": kind, "method": "__setitem__", "args": [("int", 0), y]})
+                one({"op": "call", "name": name, "kind": kind, "method": "insert", "args": [("int", 0), y]})
+                one({"op": "call", "name": name, "kind": kind, "method": "extend", "args": [("list", [("int", 2), y])]})
+            if kind == "dict":
+                one({"op": "set", "name": name, "value": ("dict", list(v[1]) + [(("str", "n"), y)])})
+                one({"op": "call", "name": name, "kind": "dict", "method": "__setitem__", "args": [("str", "k"), y]})
+                one({"op": "call", "name": name, "kind": "dict", "method": "update", "args": [("dict", [(("str", "o"), y)])]})
+    return hs
+
+
+def op_value_tag(op):
+    vals = list(op.get("args", [])) + ([op["value"]] if "value" in op else [])
+    for v in vals:
+        for t in NONFINITE:
+            if t == v or (isinstance(v, (tuple, list)) and len(v) > 1 and isinstance(v[1], list) and
+                          any(t == x or (isinstance(x, (tuple, list)) and t in list(x)) for x in v[1])):
+                return t[2]
+    return "?"
+
+
+
 MI_LATTICE = [("int", 1), ("int", 12), ("int", -1), ("flt", 5, -1), ("str", "x"), ("none",), ("bool", True), ("list", [("int", 12)])]
 
 
@@ -2145,6 +2213,10 @@ def run(rep, tier):
     for h in directed_lattice(ctx, tables, rep):
         all_histories.append(("directed:value-lattice", h))
     lap("directed:value-lattice")
+    for h in directed_nonfinite(ctx, tables, rep):
+        all_histories.append(("directed:nonfinite", h))
+    lap("directed:nonfinite")
+
     for h in directed_multi_instance(ctx, tables, rep):
         all_histories.append(("directed:multi-instance", h))
     lap("directed:multi-instance")
